@@ -123,37 +123,55 @@ func checkRangeSplit(p *core.Prog, r *core.Report) {
 		g, base := core.LoadedField(core.SkipConv(v))
 		return g == f && base == recv
 	}
-	// the chunk literal built inside the loop
-	var lit *ssa.Alloc
+	// the chunk built inside the loop: a &Range{…} literal or a NewRange(start, end) call
+	newRange := p.FuncObj(pkgBlock, "NewRange")
+	var lit ssa.Value
 	var loop *core.Loop
+	var startV, endV ssa.Value
+	isCons := func(in ssa.Instruction) bool {
+		if a, ok := in.(*ssa.Alloc); ok && a.Heap {
+			if pt, ok := a.Type().Underlying().(*types.Pointer); ok && types.Identical(pt.Elem(), rng) {
+				return true
+			}
+		}
+		if c, ok := in.(*ssa.Call); ok && core.CommonCallee(c.Common()) == newRange {
+			return true
+		}
+		return false
+	}
+	consBounds := func(in ssa.Instruction) (ssa.Value, ssa.Value) {
+		if c, ok := in.(*ssa.Call); ok {
+			return c.Call.Args[0], c.Call.Args[1]
+		}
+		var sv, ev ssa.Value
+		for _, ref := range *in.(*ssa.Alloc).Referrers() {
+			fa, ok := ref.(*ssa.FieldAddr)
+			if !ok {
+				continue
+			}
+			for _, st := range core.StoresTo(fa) {
+				switch core.FieldOfAddr(fa) {
+				case startF:
+					sv = st.Val
+				case endF:
+					ev = st.Val
+				}
+			}
+		}
+		return sv, ev
+	}
 	for _, l := range core.Loops(fn) {
 		for b := range l.Body {
 			for _, in := range b.Instrs {
-				if a, ok := in.(*ssa.Alloc); ok && a.Heap {
-					if pt, ok := a.Type().Underlying().(*types.Pointer); ok && types.Identical(pt.Elem(), rng) {
-						lit, loop = a, l
-					}
+				if isCons(in) {
+					lit, loop = in.(ssa.Value), l
+					startV, endV = consBounds(in)
 				}
 			}
 		}
 	}
 	if lit == nil {
-		core.Undecide("Range.Split: no chunk literal built inside a loop")
-	}
-	var startV, endV ssa.Value
-	for _, ref := range *lit.Referrers() {
-		fa, ok := ref.(*ssa.FieldAddr)
-		if !ok {
-			continue
-		}
-		for _, st := range core.StoresTo(fa) {
-			switch core.FieldOfAddr(fa) {
-			case startF:
-				startV = st.Val
-			case endF:
-				endV = st.Val
-			}
-		}
+		core.Undecide("Range.Split: no chunk (literal or NewRange call) built inside a loop")
 	}
 	sp, ok1 := startV.(*ssa.Phi)
 	ep, ok2 := endV.(*ssa.Phi)
@@ -179,6 +197,34 @@ func checkRangeSplit(p *core.Prog, r *core.Report) {
 	// either r.ExclusiveEndBlock or (end + chunkSize) on a path where it was not found > r.ExclusiveEndBlock
 	chunk := fn.Params[1]
 	okClip := true
+	// another correct shape tests the end at the loop head: the chunk of an iteration is only built over an edge on which
+	// the loop-carried end was found <= the range's end
+	headGuarded := false
+	{
+		var leEdges []core.Edge
+		core.Instrs(fn, func(in ssa.Instruction) {
+			ifi, ok := in.(*ssa.If)
+			if !ok || !loop.Body[ifi.Block()] {
+				return
+			}
+			onT, onF, ok := core.CondRelation(ifi.Cond, func(x ssa.Value) bool { return core.SkipConv(x) == ssa.Value(ep) }, func(x ssa.Value) bool { return isRecvField(x, endF) })
+			if !ok {
+				return
+			}
+			if onT&core.OrdGT == 0 {
+				leEdges = append(leEdges, core.Edge{From: ifi.Block(), Idx: 0})
+			}
+			if onF&core.OrdGT == 0 {
+				leEdges = append(leEdges, core.Edge{From: ifi.Block(), Idx: 1})
+			}
+		})
+		if len(leEdges) > 0 {
+			q := core.PathQuery{Fn: fn, CutEdge: func(e core.Edge) bool { return containsEdge(leEdges, e) }}
+			if _, reach := q.CanReach(loop.Header.Instrs[0], func(x ssa.Instruction) bool { return x == lit.(ssa.Instruction) }); !reach && loop.Header.Instrs[0] != lit.(ssa.Instruction) {
+				headGuarded = true
+			}
+		}
+	}
 	for i, pred := range ep.Block().Preds {
 		if !loop.Body[pred] {
 			continue
@@ -214,7 +260,7 @@ func checkRangeSplit(p *core.Prog, r *core.Report) {
 				guarded = rel&core.OrdGT == 0
 			}
 		}
-		if !guarded {
+		if !guarded && !headGuarded {
 			okClip = false
 		}
 	}
@@ -285,6 +331,44 @@ func checkRangeSplit(p *core.Prog, r *core.Report) {
 		}
 	}
 	r.Check(okExit, "C13.R5", "Split/until-end", "chunks are produced until the chunk end reaches the range's exclusive end (the loop has no other exit)", "the loop can be left while the last chunk ends below the range's end", p.Pos(fn.Pos()))
+	// S4b: the last chunk is in the result: either every way out of the loop comes after the chunk of that iteration was
+	// built (the exit test follows the construction), or every path from the exit to a return builds a final chunk that ends
+	// at the range's end
+	okLast := true
+	for _, e := range append(append([]core.Edge{}, loop.EarlyExits...), loop.BoundExits...) {
+		exitIf := e.From.Instrs[len(e.From.Instrs)-1]
+		qa := core.PathQuery{Fn: fn, CutInstr: isCons}
+		_, beforeCons := qa.CanReach(loop.Header.Instrs[0], func(x ssa.Instruction) bool { return x == exitIf })
+		if isCons(loop.Header.Instrs[0]) {
+			beforeCons = false
+		}
+		if exitIf.Block() == loop.Header {
+			// the test sits in the loop head: is a construction ahead of it in that block?
+			beforeCons = true
+			for _, in := range loop.Header.Instrs {
+				if isCons(in) {
+					beforeCons = false
+				}
+			}
+		}
+		if !beforeCons {
+			continue // (a)
+		}
+		// (b)
+		tailCons := func(x ssa.Instruction) bool {
+			if !isCons(x) || loop.Body[x.Block()] {
+				return false
+			}
+			_, ev := consBounds(x)
+			return ev != nil && isRecvField(ev, endF)
+		}
+		tgt := e.From.Succs[e.Idx]
+		qb := core.PathQuery{Fn: fn, CutInstr: tailCons}
+		if _, reach := qb.CanReach(tgt.Instrs[0], func(x ssa.Instruction) bool { _, isRet := x.(*ssa.Return); return isRet }); reach && !tailCons(tgt.Instrs[0]) {
+			okLast = false
+		}
+	}
+	r.Check(okLast, "C13.R5", "Split/last-chunk", "the chunk that reaches the range's end is part of the result: the loop is only left after the chunk of that iteration was built, or a final chunk ending at the range's end is built on every path after the loop", "the loop can be left before the current chunk is built and a path to the return builds no final chunk", p.Pos(fn.Pos()))
 	okRet := true
 	nRet := 0
 	core.Instrs(fn, func(in ssa.Instruction) {
